@@ -52,9 +52,29 @@ def collect_specs(res, specs, variant_note=True):
         res.obligations += obl
 
 
+def iter_protocol_obligation(res):
+    """AbstractIter.__iter__ returns the iterator object itself (so that the one lazily created generator behind __next__ is the
+    only source of nodes: a second consumption of the same object continues, it never starts over)"""
+    import ast
+    from z3 import BoolVal
+    from pyvc import frontend
+    rel = "anytree/iterators/abstractiter.py"
+    try:
+        fi = frontend.get_function(rel, "AbstractIter", "__iter__")
+        ok = len(fi.body) == 1 and isinstance(fi.body[0], ast.Return) and isinstance(fi.body[0].value, ast.Name) and fi.body[0].value.id == "self"
+        note = ast.unparse(fi.body[0]) if fi.body else ""
+        add_fn(res, fi, 1)
+    except frontend.StructError as e:
+        ok, note = False, str(e)
+    o = Obligation(rel + ":AbstractIter.__iter__/returns-self", "ASTEQ", [], BoolVal(bool(ok)), {"C05", "C06", "C14", "C04"}, note)
+    o.result, o.backend, o.time, o.all_results, o.text = ("unsat" if ok else "sat"), "ast-compare", 0.0, [], ""
+    res.obligations.append(o)
+
+
 def collect_iter(res):
     reg, specs = iterators.build()
     collect_specs(res, specs)
+    iter_protocol_obligation(res)
     for name, hyps, goal in iterators.lemma_obligations():
         res.obligations.append(Obligation("spec-functions/" + name, "LEMMA", hyps, goal, {"C05", "C06", "C14", "C04"}))
     return reg
